@@ -581,7 +581,45 @@ def split_segments(events, reset='reset'):
 
 
 def validate_segments(ctx, module, cfgtext, spec_dirs, segments, name=None, max_reruns=6, dfs=True,
-                      timeout=900, files=None, count=True):
+                      timeout=900, files=None, count=True, jobs=None):
+    """Parallel front end of _validate_seq: the segments are independent, so a large batch is cut into contiguous chunks
+    of similar event volume, each validated by its own TLC process (trace validation itself is sequential: workers=1).
+    Same result as the sequential version, except that the rejection cap applies per chunk."""
+    total = sum(len(s) for s in segments)
+    if jobs is None:
+        jobs = int(os.environ.get('VERIF_VALJOBS', '0')) or max(1, min(8, ctx.workers // 2))
+    jobs = max(1, min(jobs, len(segments), total // 2500))
+    if jobs <= 1:
+        return _validate_seq(ctx, module, cfgtext, spec_dirs, segments, name, max_reruns, dfs, timeout, files, count)
+    target = total / jobs
+    chunks, cur, vol = [], [], 0
+    for i, s in enumerate(segments):
+        cur.append(i)
+        vol += len(s)
+        if vol >= target and len(chunks) < jobs - 1:
+            chunks.append(cur)
+            cur, vol = [], 0
+    if cur:
+        chunks.append(cur)
+    import concurrent.futures
+    with concurrent.futures.ThreadPoolExecutor(max_workers=len(chunks)) as ex:
+        futs = [ex.submit(_validate_seq, ctx, module, cfgtext, spec_dirs, [segments[i] for i in ch], '%s-j%d' % (name or module, k),
+                          max_reruns, dfs, timeout, files, count, True) for k, ch in enumerate(chunks)]
+        res = [f.result() for f in futs]
+    accepted, rejected, unexamined = 0, [], []
+    for ch, (a, rj, un) in zip(chunks, res):
+        accepted += a
+        rejected += [(ch[k], ln) for k, ln in rj]
+        unexamined += [ch[k] for k in un]
+    rejected.sort()
+    ctx.last_unexamined = sorted(unexamined)
+    if unexamined:
+        ctx.extra['unexamined_segments'] = ctx.extra.get('unexamined_segments', 0) + len(unexamined)
+    return accepted, rejected
+
+
+def _validate_seq(ctx, module, cfgtext, spec_dirs, segments, name=None, max_reruns=6, dfs=True,
+                  timeout=900, files=None, count=True, quiet_unexamined=False):
     """Validate a list of independent trace segments (each a list of events,
     the first one a `reset`) with one TLC start.  When a segment is rejected,
     the segments before it are accepted, it is recorded, and validation
@@ -593,7 +631,9 @@ def validate_segments(ctx, module, cfgtext, spec_dirs, segments, name=None, max_
     rejected = []
     accepted = 0
     runs = 0
-    ctx.last_unexamined = []
+    unexamined = []
+    if not quiet_unexamined:
+        ctx.last_unexamined = []
     while alive:
         runs += 1
         evs = []
@@ -624,10 +664,14 @@ def validate_segments(ctx, module, cfgtext, spec_dirs, segments, name=None, max_
         accepted += k
         alive = alive[k + 1:]
         if len(rejected) >= max_reruns and alive:
-            ctx.extra['unexamined_segments'] = ctx.extra.get('unexamined_segments', 0) + len(alive)
-            ctx.last_unexamined = list(alive)
+            unexamined = list(alive)
+            if not quiet_unexamined:
+                ctx.extra['unexamined_segments'] = ctx.extra.get('unexamined_segments', 0) + len(alive)
+                ctx.last_unexamined = list(alive)
             ctx.log('%d segments rejected; %d left unexamined' % (len(rejected), len(alive)))
             break
+    if quiet_unexamined:
+        return accepted, rejected, unexamined
     return accepted, rejected
 
 
